@@ -705,8 +705,9 @@ def analyze(plan, r):
     # 7b. what a waited graceful shutdown leaves at the instant it returns (C05)
     awr = notes.get("at_waited_shutdown_return")
     if fam == "shutdown" and awr and not kills and (awr["unfinished"] or awr["manager_alive"] or awr["workers_alive"]):
+        ukinds = ",".join(sorted({r.kinds.get(t, "?") for t in awr["unfinished"]}))
         add(["C05"], "waited-shutdown-returned-early",
-            f"waited-shutdown-returned-early unfinished[{bool(awr['unfinished'])}] manager[{awr['manager_alive']}] workers[{bool(awr['workers_alive'])}] "
+            f"waited-shutdown-returned-early unfinished[{ukinds}] manager[{awr['manager_alive']}] workers[{bool(awr['workers_alive'])}] "
             f"how[{notes.get('shutdown')}] ctx[{ctx}]", str(awr))
     # 8. forced shutdown (C06)
     if fam == "killshutdown" and r.status in ("quiescent", "polling"):
